@@ -32,6 +32,8 @@ func TestMain(m *testing.M) {
 	run.Assume("crashes happen only at the 23 verifPoint markers of accounting.go (between persistence/transmit steps), not inside a file write; SIGKILL keeps completed writes (page cache), so fsync behaviour and torn files are out of reach")
 	run.Assume("'eventually' is bounded: after the last restart the server is up and 90 s of virtual time pass (all back-offs: base 1 s, max 4 s, MaxRetries 8)")
 	run.Assume("transmissions are serialised by the hook (a mutex from X:before-send to X:after-send) so that the per-transmission outage script is exact; the manager's goroutines otherwise run as they are")
+	run.Assume("phase-scripted patterns: one session, so every queue transmission before a Start got through is the Start, and the Stop is only transmitted afterwards (late StopSession positions are combined with B <= 2 so that no interim update can be queued beside the Start); the per-record refusal bounds (Start <= 1+B, Stop <= C, interim <= D+C) are checked on the harness's journal and a pattern outside MaxRetries-2 queue refusals per record is reported inconclusive, not judged")
+	run.Assume("DHCP accounting: the handlers send Start/Stop from goroutines; the harness waits (synctest.Wait) until they have been answered before the next step, so the order of records of different steps is the order of the steps; stopAllAccounting is terminal (in production the server is closed before it runs)")
 	run.Floor("kill_cases_judged", 100)
 	run.Floor("accepted_stop", 100)
 	run.Floor(floorQueuedLater, 20)
@@ -46,7 +48,7 @@ func TestMain(m *testing.M) {
 }
 
 const (
-	ruleDHCP   = "DHCP server's own accounting path (TestDHCPAccounting, in-process, synctest bubble, 10 min leases, RADIUS server reachable throughout): every history of up to 4 (thorough 6) steps over {DISCOVER, REQUEST with requested-ip, renewing REQUEST with ciaddr, lease time passes, one cleanup tick, RELEASE, DECLINE} from an empty server and the same after DISCOVER REQUEST, one client, each ended by the shutdown accounting (stopAllAccounting; terminal because the server is gone afterwards), plus seeded random histories of 5-14 steps over two clients with half-lease waits; oracle on the acknowledged stream only: every Acct-Session-Id whose Start was acknowledged has exactly one acknowledged Stop at the end, no Stop for an id never started, no Stop before its Start, Stop carries the Start's identifiers; a history is non-trivial when at least one Accounting-Start was acknowledged; the lease state named in the counters (none/live/lapsed-unswept) is the harness's reading of the lease table before the step, used for counting and witness classes only"
+	ruleDHCP   = "DHCP server's own accounting path (TestDHCPAccounting, in-process, synctest bubble, 10 min leases, RADIUS server reachable throughout): every history of up to 4 (thorough 5) steps over {DISCOVER, REQUEST with requested-ip, renewing REQUEST with ciaddr, lease time passes, one cleanup tick, RELEASE, DECLINE} from an empty server and the same after DISCOVER REQUEST, one client, each ended by the shutdown accounting (stopAllAccounting; terminal because the server is gone afterwards), plus seeded random histories of 5-14 steps over two clients with half-lease waits; oracle on the acknowledged stream only: every Acct-Session-Id whose Start was acknowledged has exactly one acknowledged Stop at the end, no Stop for an id never started, no Stop before its Start, Stop carries the Start's identifiers; a history is non-trivial when at least one Accounting-Start was acknowledged; the lease state named in the counters (none/live/lapsed-unswept) is the harness's reading of the lease table before the step, used for counting and witness classes only"
 	rulePhased = "phase-scripted outage patterns (un-killed, one session): the server is unreachable independently per phase {A: the transmission of StartSession, B: queue transmissions before a Start got through, D: interim updates and their retries before the Stop is asked for, C: transmissions after the Stop was asked for}, the first n transmissions of each phase refused, n = 0..3 (thorough 0..4) for every phase exhaustively x StopSession at 0.7 s / 3.5 s / 6.3 s / 11.1 s / 21.5 s of virtual time (before the Start is delivered, between delivery and the first interim update, after one or two interim ticks), MaxRetries = max(5, C+D+1) (thorough 6) so that no record is refused MaxRetries times; plus seeded random patterns with MaxRetries 4..8, phases up to MaxRetries-2, other StopSession positions and the Stop issued by the shutdown drain with refusals continuing after the restart. The phase of a transmission and the shape counted (e.g. 'stop requested while start queued, >=1 refusal afterwards') are read from the harness's own journal of refused/answered transmissions, never from the manager's retry counters. The oracle is the same as for all other scripts"
 )
 
@@ -280,7 +282,7 @@ func TestCrashEnumeration(t *testing.T) {
 		finishScript(sc, fmt.Sprintf("p%03d", i), run.SubRand("phased", i))
 		scripts = append(scripts, sc)
 	}
-	for i, n := 0, run.Pick(24, 300); i < n; i++ {
+	for i, n := 0, run.Pick(24, 200); i < n; i++ {
 		rng := run.SubRand("phased-random", i)
 		sc := phasedRandom(rng)
 		finishScript(sc, fmt.Sprintf("q%03d", i), rng)
